@@ -849,6 +849,8 @@ impl DebugSession {
                     Err(_) => break,
                 },
                 1 => {
+                    // A selected operation needs to be completed, it may not just be dropped
+                    let _ = oper.recv(lsp_shutdown_receiver.receiver());
                     log::trace!("Shutdown received from LSP.");
                     break;
                 }
